@@ -2014,6 +2014,9 @@ def run(tier: str, seed: int, replay: str | None = None) -> int:
     n_multi = 300 if tier == "quick" else 3000
     n_node = 1500 if tier == "quick" else 15000
     n_assoc = 150 if tier == "quick" else 1500
+    n_child_docs = 150 if tier == "quick" else 1500
+    n_history = 30 if tier == "quick" else 300
+    n_href = 1500 if tier == "quick" else 15000
     docs: list = []
     ev = 0
     import time
@@ -2077,16 +2080,25 @@ def run(tier: str, seed: int, replay: str | None = None) -> int:
         lap("node")
         n_as, bad_as = assoc_stream(rep, drv, random.Random(seed * 4001 + 1603), d, docs, n_assoc, stats)
         lap("assoc")
+        from . import c16_child as CH
+        import sys
+        H = sys.modules[__name__]
+        n_ch, bad_ch = CH.child_stream(H, rep, drv, random.Random(seed * 3001 + 1606), docs, n_child_docs, 6, stats)
+        lap("child")
+        n_hi, bad_hi = CH.history_stream(H, rep, drv, random.Random(seed * 2003 + 1607), docs, n_history, stats, d)
+        lap("history")
+        n_hr, bad_hr = CH.href_stream(H, rep, drv, random.Random(seed * 1009 + 1608), n_href, stats, d)
+        lap("href")
     drv.close()
     rep.coverage.update(
-        evaluations=ev + n_imp + n_lk + n_mu + n_nd + n_as + counters["runs"],
+        evaluations=ev + n_imp + n_lk + n_mu + n_nd + n_as + n_ch + n_hi + n_hr + counters["runs"],
         distinct_nontrivial=len(counters["nontrivial"]),
         rule="pairs: distinct (A sources, B sources, mode) whose B output contains at least one link that leaves B "
              "and was checked against A's output; export/import/lookup stream sizes are listed separately",
         samples=counters["samples"],
-        traces_validated_against_impl=ev + counters["export_cmp"] + n_imp + n_lk + n_mu + n_nd + n_as,
+        traces_validated_against_impl=ev + counters["export_cmp"] + n_imp + n_lk + n_mu + n_nd + n_as + n_ch + n_hi + n_hr,
         export_cases=ev + counters["export_cmp"], import_cases=n_imp, lookup_cases=n_lk, multi_project_cases=n_mu,
-        graph_node_cases=n_nd, use_association_cases=n_as, stream_seconds=secs,
+        graph_node_cases=n_nd, use_association_cases=n_as, child_lookup_cases=n_ch, history_loads=n_hi, href_cases=n_hr, stream_seconds=secs,
         end_to_end_runs=counters["runs"], pairs_with_links_checked=counters["pairs_checked"],
         correspondence_disagreements=len(rep.tie_breaks),
         input_distribution=dict(sorted(stats.items())),
@@ -2105,6 +2117,8 @@ def run(tier: str, seed: int, replay: str | None = None) -> int:
         "path segments and for the relative references get_url produces (dir/file.html#anchor) only",
         "pathlib's special case of exactly two leading slashes is not modelled",
         "Jinja templates / Markdown are on the implementation side only; their links are judged by the oracle on the HTML",
+        "href of a textual reference: paths as segment lists without symbolic links (the harness's directories have none); "
+        "os.path.relpath / normpath as in FordModel/Path.lean (absolute POSIX paths)",
         "graph nodes: HYPERLINK_RE is modelled on the strings FortranBase.__str__ produces for URLs without quote "
         "characters and names without <, >, quotes; graphs saved to graph_dir and an absolute project_url of B are not observed",
     ]
